@@ -2,6 +2,7 @@ import MlModel.Lemmas.Pipe
 import MlModel.Lemmas.PipeBatch
 import MlModel.Lemmas.Iter
 import MlModel.Lemmas.PipeSource
+import MlModel.Lemmas.PipeFinal
 /-!
 # C12 — error skipping drops only failing elements; otherwise the first error surfaces
 
@@ -528,6 +529,82 @@ example :
     -- skipping off: the failing read surfaces, one record before it
     (Impl.run false [exAssignFirst] exSrcFail).out.length = 1 ∧
     (Impl.run false [exAssignFirst] exSrcFail).err = some { kind := .value } := by
+  decide +kernel
+
+/-! ## SC12c — the first error is FINAL: the pipeline iterator object after the error
+
+The theorems above speak about what `list(it)` hands out.  These speak about the iterator OBJECT, which
+the caller still holds after the error (`Impl.pipeNext` = the generator object that `iter_fn` returns,
+`Impl.runPost`: `k` further `next()` calls, and the sinks, with the iterator still alive). -/
+
+/-- **C12_generator_is_final.**  Kind level, for every body `next` and every state: a generator object
+that has been finalised (an exception passed through it) answers `StopIteration` to every later
+`next()`, and stays finalised. -/
+theorem C12_generator_is_final {α σ : Type} (next : σ → Step α σ) (k : Nat) :
+    calls (genNext next) k none = (List.replicate k none, none) :=
+  calls_gen_none next k
+
+/-- **C12_pipe_object_agrees.**  The object view and the list view of the pipeline iterator agree: the
+caller's `for x in it` over the generator object hands out exactly `(Impl.run …).out`, ends with exactly
+`(Impl.run …).err`, and leaves the object finalised iff an error ended the loop. -/
+theorem C12_pipe_object_agrees (ignore : Bool) (ops : List Op) (src : List (Ev Val)) :
+    consume Impl.pipeNext ((Impl.topEvents ignore ops src).length + 1) (some (Impl.topEvents ignore ops src))
+      = ((Impl.run ignore ops src).out, (Impl.run ignore ops src).err,
+         match (Impl.run ignore ops src).err with | some _ => none | none => some []) := by
+  have h := consume_gen_cursor (Impl.topEvents ignore ops src) ((Impl.topEvents ignore ops src).length + 1) (by omega)
+  simp only [Impl.pipeNext, h, Impl.run, genEnd]
+  rfl
+
+/-- **C12_first_error_is_final.**  For every chain of operators, every source, both skipping modes, and
+every number `k` of further `next()` calls: if an error reaches the caller of the pipeline iterator
+(skipping disabled: the first error; skipping enabled: the first unskippable one), then afterwards
+every later `next()` on the same iterator answers `StopIteration` — nothing more is delivered, hence
+nothing more is pulled through the operators and written to a sink — and every sink has been closed
+exactly once, already while the iterator object is still alive, and still after the `k` calls.  And no
+error reaching the caller is the only way for `runPost` to be `none`. -/
+theorem C12_first_error_is_final (ignore : Bool) (ops : List Op) (src : List (Ev Val)) (k : Nat) :
+    (∀ e, (Impl.run ignore ops src).err = some e →
+      Impl.runPost ignore ops src k = some
+        { calls := List.replicate k none,
+          closedAtError := (Impl.run ignore ops src).closed,
+          closedAfter := (Impl.run ignore ops src).closed }) ∧
+    ((Impl.run ignore ops src).err = none → Impl.runPost ignore ops src k = none) := by
+  have h := C12_pipe_object_agrees ignore ops src
+  constructor
+  · intro e he
+    rw [he] at h
+    simp only [Impl.runPost, h]
+    simp [Impl.pipeNext, calls_gen_none, Impl.closedOf, Impl.run]
+  · intro he
+    rw [he] at h
+    simp only [Impl.runPost, h]
+
+/-- `C12_first_error_is_final` read off for the later calls alone: none of them hands out a value. -/
+theorem C12_nothing_after_first_error (ignore : Bool) (ops : List Op) (src : List (Ev Val)) (k : Nat) (e : Err)
+    (he : (Impl.run ignore ops src).err = some e) (p : Impl.Post) (hp : Impl.runPost ignore ops src k = some p) :
+    ∀ c ∈ p.calls, c = none := by
+  rw [(C12_first_error_is_final ignore ops src k).1 e he] at hp
+  cases hp
+  intro c hc
+  exact (List.mem_replicate.mp hc).2
+
+/-- **C12_bare_chain_resumes.**  The same caller over a RESUMABLE outermost object (the bare chain of
+`map` / `zip` objects, `Impl.bareNext`): the loop hands out the same values and the same error, but the
+object is left alive BEHIND the failing element, and the next `k` calls deliver whatever is there — the
+first error is not final.  (Seeded change C12-m5: `return iter(result)` instead of `yield from result`.) -/
+theorem C12_bare_chain_resumes (evs : List (Ev Val)) (k : Nat) :
+    consume Impl.bareNext (evs.length + 1) evs = ((observe evs).1, (observe evs).2, afterErr evs) ∧
+    (calls Impl.bareNext k (afterErr evs)).1
+      = ((afterErr evs).take k).map some ++ List.replicate (k - (afterErr evs).length) none := by
+  refine ⟨consume_cursor evs _ (by omega), ?_⟩
+  simp only [Impl.bareNext, calls_cursor]
+
+-- non-vacuity / test: sink → failing apply over three records, skipping off: the error surfaces after one
+-- record, two more calls answer StopIteration, the sink (in front of the failing operator) is closed once
+example :
+    (Impl.run false [exSinkFirst, exAssignFirst] exSrcFail).err = some { kind := .value } ∧
+    (Impl.runPost false [exSinkFirst, exAssignFirst] exSrcFail 2).map (fun p => (p.calls.map Option.isSome, p.closedAtError, p.closedAfter))
+      = some ([false, false], [1], [1]) := by
   decide +kernel
 
 end MlModel.C12
